@@ -13,7 +13,9 @@ from .. import config, record, runner, tlc, workertrace
 THRESHOLDS = [[1, 3], [1, 2], [2, 3], [1, 1], [3, 10], [7, 10], [4, 5], [5, 7], [41, 100],
               [58, 100], [82, 100], [1, 4], [1, 7], [2, 7], [9, 10],
               # thresholds that need more than two / four decimals
-              [33333, 100000], [33334, 100000], [66667, 100000], [70711, 100000], [49999, 100000], [618, 1000]]
+              [33333, 100000], [33334, 100000], [66667, 100000], [70711, 100000], [49999, 100000], [618, 1000],
+              # four-decimal neighbours of 1/3, 2/3, 5/7 (a score rounded before the comparison lands on them)
+              [3333, 10000], [3334, 10000], [6667, 10000], [6666, 10000], [7143, 10000]]
 OUTS = [None, None, [], ['a'], ['b', 'a'], ['s'], ['id', 'a'], ['a', 'a'], ['b', 's', 'a'],
         ['a', 'b', 'a'], ['s', 's'], ['d'], ['d', 'a'], ['a', 'd', 'b'], ['b', 'd', 's', 'a'],
         ['id', 'a', 'id'], ['id', 'id'], ['a', 'id', 's', 'id']]
